@@ -115,3 +115,9 @@ func VerifCalcPercentUsage(cpuRequest, memRequest, cpuCapacity, memCapacity reso
 func VerifCalcScaleUpDelta(nodes []*v1.Node, cpuPercent, memPercent float64, cpuReq, memReq resource.Quantity, thr int, cpuCap, memCap resource.Quantity) (int, error) {
 	return calcScaleUpDelta(nodes, cpuPercent, memPercent, cpuReq, memReq, &NodeGroupState{Opts: NodeGroupOptions{ScaleUpThresholdPercent: thr}, cpuCapacity: cpuCap, memCapacity: memCap})
 }
+
+// VerifSetLoop sets the scan interval and the stop channel used by RunForever.
+func (c *Controller) VerifSetLoop(interval time.Duration, stop <-chan struct{}) {
+	c.Opts.ScanInterval = interval
+	c.stopChan = stop
+}
